@@ -340,4 +340,26 @@ def instRun (ctxDone : Bool) : List Iter → Ret
   | .shot :: rest => instRun ctxDone rest
   | .shotPanic e :: _ => .err e
 
+/-! ### `Engine.Run`: the loop that consumes the pools' results (core/engine/engine.go) -/
+
+/-- what `Engine.Run` returns: nil, `ctx.Err()`, or pool `pool`'s error wrapped as `"<id>" pool run failed` -/
+inductive ERes
+  | ok | ctx | fail (pool : Nat) (r : PRes)
+  deriving DecidableEq, Repr
+
+/-- what one iteration of the loop meets: a pool's result (`ctxDone` = what the non-blocking check of the engine
+context says when that result is an error), or the engine context done -/
+inductive EEv
+  | pool (id : Nat) (r : PRes) (ctxDone : Bool)
+  | ctxDone
+  deriving DecidableEq, Repr
+
+/-- `Engine.Run` over `n` pools; `none`: still waiting for a result -/
+def engRun : Nat → List EEv → Option ERes
+  | 0, _ => some .ok
+  | _ + 1, [] => none
+  | _ + 1, .ctxDone :: _ => some .ctx
+  | n + 1, .pool id r d :: rest =>
+    if r = .ok then engRun n rest else if d then some .ctx else some (.fail id r)
+
 end Pandora.Model.C05
